@@ -152,4 +152,11 @@ def run_obligation(ob, tier, seed):
             out["inconclusive"].append("vacuity: assertion(s) never reached: %r" % (missing,))
     if res.paths == 0 and not out["harness_errors"]:
         out["inconclusive"].append("vacuity: no feasible path")
+    try:
+        import sys as _sys
+        cenv_ = _sys.modules.get("vt.cenv")
+        if cenv_ is not None:
+            out["c_functions"] = cenv_.c_functions_interpreted()
+    except Exception:
+        pass
     return out
